@@ -16,12 +16,12 @@ REFUSED = ["malformed", "notjson", "oversized", "v0", "v2", "nov", "badmode"]
 REQUIRED = ["flight_answer", "flight_more_than_4096_rows", "flight_empty_result", "flight_distributed", "flight_error",
             "answer_auto_distributed", "answer_auto_local", "answer_force_distributed", "answer_off_local",
             "sql_refused_loading", "sql_refused_failed", "failure_after_decision_is_an_error",
-            "env:LoadDone", "env:LoadFail", "env:Resolve", "env:Tick", "env:ProbeDown", "env:PeerDies"] + ["ticket_refused_" + t for t in REFUSED]
+            "env:LoadDone", "env:LoadFail", "env:Resolve", "env:Tick", "env:ProbeUp", "env:ProbeDown", "env:PeerDies"] + ["ticket_refused_" + t for t in REFUSED]
 ALL_SIZES = [0, 1, 4096, 4097, 10000]
 SIZES = {
-    "quick": dict(eps=EPS, sizes_mc=ALL_SIZES, sizes_mut=[1, 4097], sizes_emit=ALL_SIZES, mutants=MUTANTS, per_state=3, walks=50, walk_depth=14, jobs=6),
+    "quick": dict(eps=EPS, sizes_mc=ALL_SIZES, sizes_mut=[1, 4097], sizes_emit=ALL_SIZES, mutants=MUTANTS, per_state=5, walks=50, walk_depth=14, jobs=6, probing=60),
     "thorough": dict(eps=EPS, sizes_mc=ALL_SIZES, sizes_mut=[1, 4097], sizes_emit=ALL_SIZES, mutants=MUTANTS, per_state=40, walks=1200, walk_depth=24,
-                     jobs=8, npeers_mc=3),
+                     jobs=8, npeers_mc=3, probing=400, states3=1200, per_state3=10),
 }
 WHAT = "C34 Flight vs HTTP"
 
